@@ -1,4 +1,4 @@
-//go:build verif && !noinspect
+//go:build verif && !noinspect && !noxsyncapi
 
 package cache
 
